@@ -567,3 +567,63 @@ func runSitu(c *ctx, monitor string, cfgNames []string) []procOut {
 	wg.Wait()
 	return outs
 }
+
+// runThresh builds the size-threshold discovery driver with coverage instrumentation of the library packages and
+// runs it for this property's operations in the given configurations (see harness/drv/thresh).
+func runThresh(c *ctx, cfgNames []string, replay string) []procOut {
+	const lib = "github.com/oasisprotocol/curve25519-voi/"
+	coverpkg := lib + "curve/...," + lib + "internal/...," + lib + "primitives/...," + lib + "zzverif/drv/thresh"
+	var outs []procOut
+	var mu sync.Mutex
+	var wg sync.WaitGroup
+	built := map[string]string{}
+	for _, cn := range cfgNames {
+		bn := configs[cn].Build
+		if _, done := built[bn]; done {
+			continue
+		}
+		built[bn] = ""
+		b := builds[bn]
+		tags := append([]string{}, b.Tags...)
+		if c.useGraft {
+			tags = append(tags, "verif")
+		} else if c.minTag {
+			tags = append(tags, "verifmin")
+		}
+		args := []string{"build", "-trimpath", "-cover", "-covermode=atomic", "-coverpkg=" + coverpkg}
+		if len(tags) > 0 {
+			args = append(args, "-tags", strings.Join(tags, ","))
+		}
+		args = append(args, "-o", c.binPath("thresh."+bn), "./drv/thresh")
+		if out, err := run(filepath.Join(c.scratch, "h"), append(goEnv(), b.Env...), "go", args...); err != nil {
+			built[bn] = firstLines(out, 10)
+		}
+	}
+	for _, cn := range cfgNames {
+		cfg := configs[cn]
+		if e := built[cfg.Build]; e != "" {
+			outs = append(outs, procOut{cfg: cn + "+thresh", exitCode: 2, stderr: "HARNESS-ERROR cover build failed: " + e})
+			continue
+		}
+		wg.Add(1)
+		go func(cn string, cfg configSpec) {
+			defer wg.Done()
+			covdir := filepath.Join(c.scratch, "out", "covdir-thresh-"+cn)
+			os.MkdirAll(covdir, 0o755)
+			cc := cfg
+			cc.Build = "thresh." + cfg.Build
+			extra := []string{"-prop", c.spec.ID}
+			if replay != "" {
+				extra = append(extra, "-replay", replay)
+			}
+			po := c.runConfig(cc, 1, extra, []string{"GOCOVERDIR=" + covdir}, "+thresh")
+			os.RemoveAll(covdir)
+			mu.Lock()
+			outs = append(outs, po)
+			mu.Unlock()
+		}(cn, cfg)
+	}
+	wg.Wait()
+	sort.Slice(outs, func(i, j int) bool { return outs[i].cfg < outs[j].cfg })
+	return outs
+}
